@@ -39,13 +39,15 @@ theorem packShift_eq (d b : Int) (sem : Nat) (hd : -366 ≤ d ∧ d ≤ 366) (hb
   unfold packShift
   rw [if_neg (by omega)]
 
-theorem go_end (fuel : Nat) (spec : List Char) (sem : Nat) (b d tmp : Int) (h : strtol spec = (tmp, [])) :
+theorem go_end (fuel : Nat) (spec : List Char) (sem : Nat) (b d tmp : Int) (h : strtol spec = (tmp, [])) (ht : -366 ≤ tmp ∧ tmp ≤ 366) :
     snarfShiftGo (fuel+1) spec sem b d = packShift (d + tmp) b sem := by
   rw [snarfShiftGo]; simp only [h]
+  rw [if_neg (by omega)]
 
-theorem go_comma (fuel : Nat) (spec r : List Char) (sem : Nat) (b d tmp : Int) (h : strtol spec = (tmp, ',' :: r)) :
+theorem go_comma (fuel : Nat) (spec r : List Char) (sem : Nat) (b d tmp : Int) (h : strtol spec = (tmp, ',' :: r)) (ht : -366 ≤ tmp ∧ tmp ≤ 366) :
     snarfShiftGo (fuel+1) spec sem b d = snarfShiftGo fuel r sem b (d + tmp) := by
   rw [snarfShiftGo]; simp only [h]
+  rw [if_neg (by omega)]
   simp
 
 /-- the final `…B`, `…B+`, `…B-` of a text, as a function of the number read and the suffix -/
@@ -69,20 +71,23 @@ theorem finB_eq_finBx (sem : Nat) (b d : Int) (neg : Bool) (hb : -366 ≤ b ∧ 
   simp only []
   rw [packShift_eq _ _ _ hd (by split <;> omega)]
 
-theorem go_B (fuel : Nat) (spec : List Char) (sem : Nat) (b d tmp : Int) (h : strtol spec = (tmp, ['B'])) :
+theorem go_B (fuel : Nat) (spec : List Char) (sem : Nat) (b d tmp : Int) (h : strtol spec = (tmp, ['B'])) (ht : -366 ≤ tmp ∧ tmp ≤ 366) :
     snarfShiftGo (fuel+1) spec sem b d = finB sem (b + tmp) d (decide (spec.head? = some '-')) := by
   rw [snarfShiftGo]; simp only [h]
+  rw [if_neg (by omega)]
   simp [snarfShiftGo.again, finB]
 
-theorem go_Bplus (fuel : Nat) (spec : List Char) (sem : Nat) (b d tmp : Int) (h : strtol spec = (tmp, ['B', '+'])) :
+theorem go_Bplus (fuel : Nat) (spec : List Char) (sem : Nat) (b d tmp : Int) (h : strtol spec = (tmp, ['B', '+'])) (ht : -366 ≤ tmp ∧ tmp ≤ 366) :
     snarfShiftGo (fuel+1) spec sem b d =
       finB (sem ||| ((if tmp ≥ 0 then 1 else 0) <<< 1)) (b + tmp) d (decide (spec.head? = some '-')) := by
   rw [snarfShiftGo]; simp only [h]
+  rw [if_neg (by omega)]
   simp [snarfShiftGo.again, finB]
 
-theorem go_Bminus (fuel : Nat) (spec : List Char) (sem : Nat) (b d tmp : Int) (h : strtol spec = (tmp, ['B', '-'])) :
+theorem go_Bminus (fuel : Nat) (spec : List Char) (sem : Nat) (b d tmp : Int) (h : strtol spec = (tmp, ['B', '-'])) (ht : -366 ≤ tmp ∧ tmp ≤ 366) :
     snarfShiftGo (fuel+1) spec sem b d =
       finB (sem ||| ((if tmp < 0 then 1 else 0) <<< 1)) (b + tmp) d (decide (spec.head? = some '-') || tmp == 0) := by
   rw [snarfShiftGo]; simp only [h]
+  rw [if_neg (by omega)]
   simp [snarfShiftGo.again, finB]
 end Echse.RuleExt
